@@ -13,6 +13,7 @@ Definition LabelsUnique (g : graph) : Prop :=
     f_label f1 = f_label f2 -> f1 = f2.
 Definition OutInv (g : graph) : Prop :=
   forall d s f, In d (g_deps g) -> find_step g (d_src d) = Some s -> find_file g (d_snk d) = Some f ->
+    f_detached f = false ->
     f_creator f = Some (d_src d) /\ mem_N (f_state f) static_file_states = false.
 
 (* ---- swapping the target tables under flags ---- *)
@@ -111,7 +112,7 @@ Section Reconcile.
           rewrite Hteq, Hr1 in Hn. discriminate. }
       rewrite Ea.
       assert (Hs : find_step g (d_src d) = Some s) by (rewrite Es; apply find_step_in; assumption).
-      destruct (Hout d s f Hd Hs Ef) as [Hc Hst].
+      destruct (Hout d s f Hd Hs Ef Hr1) as [Hc Hst].
       destruct (mem_N (f_state f) target_forbidden_states) eqn:Efb.
       + exfalso. destruct (forbidden_split _ Efb) as [A|A]; [congruence|].
         rewrite A in Hr2. rewrite N.eqb_refl in Hr2. discriminate.
@@ -243,8 +244,8 @@ Qed.
 
 Lemma outinv_b_sound g : outinv_b g = true -> OutInv g.
 Proof.
-  intros H d s f Hd Hs Hf. unfold outinv_b in H.
-  pose proof (proj1 (forallb_forall _ _) H d Hd) as B. cbv beta in B. rewrite Hs, Hf in B.
+  intros H d s f Hd Hs Hf Hdet. unfold outinv_b in H.
+  pose proof (proj1 (forallb_forall _ _) H d Hd) as B. cbv beta in B. rewrite Hs, Hf, Hdet in B. cbn [orb] in B.
   apply andb_true_iff in B. destruct B as [B1 B2]. apply negb_true_iff in B2. split; [|exact B2].
   unfold ocreator_is_key in B1. destruct (f_creator f) as [c|]; [|discriminate].
   apply N.eqb_eq in B1. congruence.
